@@ -129,7 +129,7 @@ def run_task(rep, task):
 def cname(cfg):
     return (f"{cfg['sweeper']}/{cfg['qd']}/{cfg.get('quad_type', 'RADAU-RIGHT')}/{cfg['prob']}{cfg['n']}/M{'-'.join(map(str, cfg['M']))}/NP{cfg['NP']}x{cfg.get('blocks', 1)}/K{cfg['maxiter']}/"
             f"{cfg.get('predict')}/jac{int(cfg.get('jac', True))}/{cfg.get('residual_type', 'full_abs')}/ns{cfg.get('nsweeps', 1)}/f{int(bool(cfg.get('finter')))}/{cfg.get('initial_guess', 'spread')}"
-            + ('/atd' if cfg.get('all_to_done') else '') + ('/cu' if cfg.get('cu') else '') + (f"/etol{cfg['e_tol']}" if cfg.get('e_tol') is not None else '') + ('/exthook' if cfg.get('exthook') else '') + (f"/Q2{cfg['qd2']}" if cfg.get('qd2') else '') + (f"/nsteps{cfg['nsteps']}" if cfg.get('nsteps') else '') + ('/inexact' if cfg.get('inexact') else '') + (f"/dtinit{cfg['dt_initial']}" if cfg.get('dt_initial') is not None else ''))
+            + ('/atd' if cfg.get('all_to_done') else '') + ('/cu' if cfg.get('cu') else '') + (f"/etol{cfg['e_tol']}" if cfg.get('e_tol') is not None else '') + ('/exthook' if cfg.get('exthook') else '') + (f"/Q2{cfg['qd2']}" if cfg.get('qd2') else '') + (f"/nsteps{cfg['nsteps']}" if cfg.get('nsteps') else '') + ('/postrun-hook' if cfg.get('postrun') else '') + ('/inexact' if cfg.get('inexact') else '') + (f"/dtinit{cfg['dt_initial']}" if cfg.get('dt_initial') is not None else ''))
 
 
 def coll_constant(Q, A, dt, weights=None):
